@@ -55,7 +55,9 @@ func main() {
 			"evidence against current/unknown/frozen validators, slashing, proposals closing, debonding and rewards on epoch boundaries; any panic, empty proposal or rejected honest proposal is a violation; " +
 			"the documented stake precondition (no stake-eligible validators / zero total voting stake) ends a history without verdict; non-trivial = history reaching >= half its length with >= 3 epoch transitions",
 		Cases: func(r *evid.Run) []chainsim.Case {
-			return chainsim.StdCases(r.Seed, r.Pick(192, 4800), r.Pick(60, 100), []string{"hostile", "runtime", "hostile", "default", "registry", "election"})
+			cs := chainsim.StdCases(r.Seed, r.Pick(192, 4800), r.Pick(60, 100), []string{"hostile", "runtime", "hostile", "default", "registry", "election"})
+			// Key manager traffic (also part of a third of the runtime profile histories).
+			return chainsim.WithExtraCases(cs, r.Seed, r.Pick(16, 400), "keymanager")
 		},
 		RunCase:          runCase,
 		CrashIsViolation: true,
